@@ -160,6 +160,11 @@ def run(ck):
             quota = None
         if i % 6 == 1:
             quota = None
+        if i % 6 == 3:
+            # a requested minimum number of splits just above what the sizes alone produce: n just above a power-of-two multiple of the leaf size (only some of the
+            # last-level nodes split by size), quota between the size-driven split count and the full balanced tree
+            n, L, quota = [(33, 16, 3), (65, 16, 5), (21, 10, 3), (41, 10, 6), (67, 16, 7)][(i // 6) % 5]; f = 0.0
+            ck.count('quota just above the size-driven split count')
         method = SPLIT_METHODS[i % len(SPLIT_METHODS)]
         kind = DATA_KINDS[(i // len(SPLIT_METHODS) + i) % len(DATA_KINDS)]      # every (split method, data kind) pair within the first 60 fits
         d = int(rng.integers(2, 6))
